@@ -34,7 +34,7 @@ class KPeer(object):
 
 
 class Chain(object):
-  def __init__(self):
+  def __init__(self, pump_open=True):
     import gevent
     from scales.constants import SinkProperties
     from scales.kafka.sink import KafkaSerializerSink, KafkaTransportSink, KafkaEndpoint
@@ -56,7 +56,11 @@ class Chain(object):
       except Exception as e:  # noqa
         self.open_box['exc'] = e
     gevent.spawn(opener)
-    self.pump()
+    if pump_open:
+      self.pump()
+      self.attach()
+
+  def attach(self):
     self.conn = self.net.conns[-1]
     self.peer = self.conn.peer
 
@@ -347,6 +351,58 @@ def check_client_errors(codes):
   return {'n': n, 'keys': n, 'viol': viol, 'sample': {'client_error_codes': [codes[0], codes[-1]]}}
 
 
+def check_while_opening():
+  """2-3 produce requests handed to the serializer while the transport is still connecting; once it is open, what is written
+  must be one well-formed request per call, each with its own topic, partition and payloads."""
+  import gevent
+  from scales.constants import MessageProperties
+  from scales.message import MethodCallMessage
+  from scales.sink import ClientMessageSinkStack
+  viol = []
+  n = 0
+  for k in (1, 2, 3):
+    n += 1
+    world.reset()
+    ch = Chain(pump_open=False)
+    vloop.run_ready()          # the connect is now pending
+    for i in range(k):
+      msg = MethodCallMessage(None, 'Put', (b'topic%d' % i, [b'payload%d' % i] * (i + 1), 1), {})
+      msg.properties[MessageProperties.Endpoint] = ch.KafkaEndpoint('h0', 9092, i)
+      st = ClientMessageSinkStack()
+      st.Push(ch.term, 'o%d' % i)
+      gevent.spawn(ch.top.AsyncProcessRequest, st, msg, None, {})
+      vloop.run_ready()
+    ch.pump()
+    ch.attach()
+    raw = bytes(ch.peer.raw)
+    got = []
+    bad = None
+    off = 0
+    try:
+      while off < len(raw):
+        (size,) = struct.unpack('>i', raw[off:off + 4])
+        rq = K.parse_request(raw[off:off + 4 + size])
+        off += 4 + size
+        p = K.parse_produce(rq['body'])
+        t = p['topics'][0]
+        got.append((t['topic'], t['partitions'][0]['partition'], [m['value'] for m in t['partitions'][0]['messages']],
+                    all(m['crc_ok'] for m in t['partitions'][0]['messages']), rq['correlation_id']))
+    except Exception as e:  # noqa
+      bad = 'what was written does not parse as Kafka requests: %r' % (e,)
+    if bad is None:
+      want = sorted((b'topic%d' % i, i, [b'payload%d' % i] * (i + 1)) for i in range(k))
+      if sorted(g[:3] for g in got) != want:
+        bad = 'requests written: %r, calls made: %r' % ([g[:3] for g in got], want)
+      elif not all(g[3] for g in got):
+        bad = 'a message CRC does not verify'
+      elif len(set(g[4] for g in got)) != k:
+        bad = 'correlation ids %r are not distinct' % ([g[4] for g in got],)
+    if bad:
+      viol.append({'clause': 'C15.malformed', 'message': '%d requests issued while the transport was connecting: %s' % (k, bad), 'sig': {'while_opening': True}})
+      break
+  return {'n': n, 'keys': n, 'viol': viol, 'sample': {'requests_while_opening': 3}}
+
+
 def check_correlation():
   """Two (three) concurrent requests, replies in every order: each caller gets the reply with its correlation id."""
   viol = []
@@ -389,6 +445,7 @@ def main(tier, seed):
     out = explore.pmap('vt.checks.c15', 'check_requests', jobs, pool, seed)
     out += explore.pmap('vt.checks.c15', 'check_responses', [(tier,)], pool, seed)
     out += explore.pmap('vt.checks.c15', 'check_correlation', [()], pool, seed)
+    out += explore.pmap('vt.checks.c15', 'check_while_opening', [()], pool, seed)
     out += explore.pmap('vt.checks.c15', 'check_client_ids', [()], pool, seed)
     if tier == 'quick':
       codes = list(range(-40, 140)) + [-32768, -32767, -129, 255, 256, 32766, 32767]
